@@ -78,10 +78,42 @@ def analyse(pid, repo):
     return ctx
 
 
+def load_seeded(pid):
+    """independently written seeded changes (seeded/<id>/patch.diff) that this property's check
+    is recorded to report"""
+    out = []
+    d = os.path.join(VERIF, 'seeded')
+    if not os.path.isdir(d):
+        return out
+    for sid in sorted(os.listdir(d)):
+        mp = os.path.join(d, sid, 'meta.json')
+        pp = os.path.join(d, sid, 'patch.diff')
+        if not (os.path.exists(mp) and os.path.exists(pp)):
+            continue
+        try:
+            meta = json.load(open(mp))
+        except Exception:
+            continue
+        rep = meta.get('reported_by', {})
+        if meta.get('breaks_property') == pid or (pid in rep and rep[pid].get('exit') == 1):
+            out.append({'id': 'seeded/' + sid, 'patch': pp, 'properties': [pid], 'what': meta.get('needs_to_manifest', '')})
+    return out
+
+
+def apply_patch(scratch, path):
+    import subprocess
+    r = subprocess.run(['patch', '-p1', '-s', '-f', '-d', scratch, '-i', path], stdout=subprocess.PIPE,
+                       stderr=subprocess.STDOUT)
+    return r.returncode == 0
+
+
 def run_one(pid, repo, m):
     scratch = make_scratch(repo)
     try:
-        if not apply_mutant(scratch, m):
+        if 'patch' in m:
+            if not apply_patch(scratch, m['patch']):
+                return {'mutant': m['id'], 'status': 'skipped (patch does not apply to the current tree)'}
+        elif not apply_mutant(scratch, m):
             return {'mutant': m['id'], 'status': 'skipped (anchor text not present in the tree)'}
         try:
             ctx = analyse(pid, scratch)
@@ -101,7 +133,7 @@ def run_one(pid, repo, m):
 
 
 def run(pid, ctx, repo):
-    ms = load_mutants(pid)
+    ms = load_mutants(pid) + load_seeded(pid)
     if not ms:
         return
     from concurrent.futures import ProcessPoolExecutor
